@@ -100,7 +100,7 @@ def run(out, tier, seed):
     out.mc("MCGraphIso", "MC_GraphIso.cfg")
     rng = random.Random(seed)
     cs = cells(2, seed) if not quick else cells(1, seed) + cells(2, seed)[::7]
-    tabs = tables(cs, rng, 600 if quick else 3000)
+    tabs = tables(cs, rng, 600 if quick else 40000)
     out.extra["tables"] = len(tabs)
     jobs = []
     for ti, (name, t) in enumerate(tabs):
